@@ -253,9 +253,11 @@ impl<F> FillRelView for JitterRng<F> where F: Fn() -> u64 + Send + Sync {
                           ], decreases='400 - i_')},
                           inserts=[
                               after(r'let mut ec\s*=\s*EcState\s*\{[^}]*\};', 'let ghost mut log: Seq<Probe> = Seq::empty();'),
+                              # the probe is logged where it is read, so that the weave does not depend on the order of the checks that follow:
+                              # a check moved behind the warm-up `continue` then fails inv.log (probe_ok) instead of losing a ghost variable
+                              after(r'let time2\s*=\s*\(self\.timer\)\(\);', 'let ghost log0 = log; proof { log = log.push(Probe { t: time, t2: time2 }); assert(log.drop_last() =~= log0); }'),
                               before(lit('if time == 0 || time2 == 0 { return Err(TimerError::NoTimer); }'),
-                                     'let ghost log0 = log; proof { log = log.push(Probe { t: time, t2: time2 }); assert(log.drop_last() =~= log0); '
-                                     'if time == 0 || time2 == 0 { assert(log[log.len() - 1].t == 0 || log[log.len() - 1].t2 == 0); assert(@0@); } }', clauses=[C('jitter.test_timer.err_no_timer', 'C13', 'tt_post(log, Err(TimerError::NoTimer))')]),
+                                     'proof { if time == 0 || time2 == 0 { assert(log[log.len() - 1].t == 0 || log[log.len() - 1].t2 == 0); assert(@0@); } }', clauses=[C('jitter.test_timer.err_no_timer', 'C13', 'tt_post(log, Err(TimerError::NoTimer))')]),
                               before(lit('if delta == 0 { return Err(TimerError::CoarseTimer); }'),
                                      'proof { if delta == 0 { assert(pdelta(log[log.len() - 1]) == 0); assert(@0@); } }', clauses=[C('jitter.test_timer.err_zero_delta', 'C13', 'tt_post(log, Err(TimerError::CoarseTimer))')]),
                               before(lit('if i < CLEARCACHE { continue; }'),
